@@ -118,6 +118,7 @@ type Node struct {
 	// incarnation
 	Alive       bool
 	Incarnation int
+	epoch       int
 	M           *block.Manager
 	Reaper      *block.Reaper
 	Seq         coresequencer.Sequencer
@@ -244,6 +245,7 @@ func (n *Node) StartNode() error {
 	}
 	quietLogs()
 	n.Incarnation++
+	n.epoch = n.Fence.Epoch()
 	n.Halted = nil
 	n.HeaderFIFO, n.DataFIFO = nil, nil
 	ctx, cancel := context.WithCancel(context.Background())
@@ -359,6 +361,9 @@ func (n *Node) Crash() {
 // AfterActivity converts a crash that fired inside an activity into a dead node.
 func (n *Node) AfterActivity() bool {
 	fired := n.Disk.Disarm()
+	if !n.Fence.Alive(n.epoch) {
+		fired = true
+	}
 	if fired {
 		n.stopLoops()
 		n.Alive = false
@@ -369,9 +374,10 @@ func (n *Node) AfterActivity() bool {
 // WithCrash runs activity f with a crash armed to cut the (k+1)-th durable write (k < 0: no crash).
 // It reports whether the crash fired.
 func (n *Node) WithCrash(k int, f func()) bool {
-	if k >= 0 {
-		n.Disk.Arm(k)
+	if k < 0 {
+		k = -1
 	}
+	n.Disk.Arm(k) // k = -1 disarms and clears the labels of an earlier crash
 	f()
 	return n.AfterActivity()
 }
@@ -400,6 +406,22 @@ func (n *Node) runLoop(name string, f func(ctx context.Context, errCh chan<- err
 	default:
 	}
 	return nil
+}
+
+// RunLoopFor runs one of the manager's loops as a goroutine for d of simulated time, then cancels it.
+// It returns whether the node died meanwhile (a crash fired at a seam).
+func (n *Node) RunLoopFor(name string, f func(ctx context.Context), d time.Duration) {
+	lctx, lcancel := context.WithCancel(n.ctx)
+	done := make(chan struct{})
+	go func() {
+		defer close(done)
+		defer n.recoverLoop(name)
+		f(lctx)
+	}()
+	time.Sleep(d)
+	synctest.Wait()
+	lcancel()
+	<-done
 }
 
 // ---- aggregator activities ----
